@@ -111,7 +111,7 @@ Definition meth0 (m : string) (r : val) : outcome :=
   match m, r with
   | "is_power_of_two", VN x => Ret (VB (pow2b x))
   | "next_power_of_two", VN x => if npow2 x <? W then Ret (VN (npow2 x)) else Ovf
-  | "as_ref", VPtr _ v => Ret v                         (* NonNull::as_ref *)
+  | "as_ref", VPtr a v => Ret (VPtr a v)                (* NonNull::as_ref: a reference keeps the address; fields are read through it *)
   | "as_ptr", VPtr a _ => Ret (VN a)                    (* NonNull::as_ptr: the address *)
   | "as_ptr", VRec fs =>                                (* a collection's buffer pointer: the same as as_mut_ptr *)
       match lookup "as_mut_ptr" fs with Some v => Ret v | None => Ret (VRec fs) end
@@ -155,6 +155,7 @@ Fixpoint eval (ft : fntab) (fuel : nat) (en : env) (e : expr) {struct fuel} : ou
           | "max", [VN x; VN y] => Ret (VN (N.max x y))
           | "min", [VN x; VN y] => Ret (VN (N.min x y))
           | "new_unchecked", [v] => Ret v            (* NonNull::new_unchecked *)
+          | "eq", [VPtr x _; VN y] => Ret (VB (x =? y))   (* ptr::eq(reference, raw pointer): by address *)
           | "from_size_align", [VN s; VN a] =>        (* Layout::from_size_align: Ok(layout) iff the layout is valid *)
               Ret (if layout_ok s a then VSome (VRec [("size", VN s); ("align", VN a)]) else VNone)
           | _, _ => Stuck
@@ -261,3 +262,62 @@ Fixpoint eval_consts (ft : fntab) (given : env) (cs : list (string * expr)) : op
       | _ => None
       end
   end.
+
+(* ---------- statements: the loops of the crate that only walk a structure and call something for
+   its effect (dealloc_chunk_list).  `let` and assignment both set the variable's binding (replacing
+   it if there is one: the functions translated never rely on an outer binding coming back after a
+   block ends); a call made for its effect is recorded, in order, with its argument values ---------- *)
+Inductive stmt :=
+| SLet (x : string) (e : expr)
+| SSet (x : string) (e : expr)
+| SDo (f : string) (args : list expr)
+| SWhile (c : expr) (body : list stmt).
+
+Definition effect : Type := string * list val.
+
+Fixpoint upd (x : string) (v : val) (en : env) : env :=
+  match en with
+  | [] => [(x, v)]
+  | (y, w) :: r => if String.eqb x y then (y, v) :: r else (y, w) :: upd x v r
+  end.
+
+Fixpoint eval_args (ft : fntab) (en : env) (es : list expr) : option (list val) :=
+  match es with
+  | [] => Some []
+  | e :: r => match eval ft FUEL_SEM en e, eval_args ft en r with
+              | Ret v, Some vs => Some (v :: vs)
+              | _, _ => None
+              end
+  end.
+
+Fixpoint exec (ft : fntab) (fuel : nat) (en : env) (tr : list effect) (ss : list stmt) {struct fuel}
+  : option (env * list effect) :=
+  match fuel with
+  | O => None
+  | S fuel =>
+    match ss with
+    | [] => Some (en, tr)
+    | SLet x e :: r | SSet x e :: r =>
+        match eval ft FUEL_SEM en e with
+        | Ret v => exec ft fuel (upd x v en) tr r
+        | _ => None
+        end
+    | SDo f args :: r =>
+        match eval_args ft en args with
+        | Some vs => exec ft fuel en (List.app tr [(f, vs)]) r
+        | None => None
+        end
+    | SWhile c body :: r =>
+        match eval ft FUEL_SEM en c with
+        | Ret (VB true) =>
+            match exec ft fuel en tr body with
+            | Some (en', tr') => exec ft fuel en' tr' (SWhile c body :: r)
+            | None => None
+            end
+        | Ret (VB false) => exec ft fuel en tr r
+        | _ => None
+        end
+    end
+  end.
+
+Record procdef := mkProc { proc_params : list string; proc_body : list stmt }.
